@@ -247,6 +247,11 @@ pub fn check_durable_image(env: &Env, model: &Model, check_counters: bool) -> Re
     if decoded.journal.as_ref().is_some_and(|j| j.active) {
         return fail("journal-active-after-flush", "allocation journal is active in the durable image after flush".into());
     }
+    // every block of a retired extent carries its own marker (new-style markers only: a legacy
+    // device keeps the zero-filled markers its old writer left)
+    if let Err(why) = codec::verify_marker_chains(&image, &decoded) {
+        return fail("retirement-marker-chain", format!("durable image after flush: {why}"));
+    }
     let want: BTreeMap<&Vec<u8>, &crate::model::Gen> = model.map.iter().collect();
     for (k, g) in &want {
         match decoded.live.get(*k) {
